@@ -56,6 +56,7 @@ def gen(rng):
                 line += f" id={rng.randint(1, 200)}"
             ops.append(line)
     tag = 0
+    bound = {}
     for _ in range(rng.randint(2, 10)):
         r = rng.random()
         tag += 1
@@ -75,7 +76,19 @@ def gen(rng):
         else:
             c = rng.choice(names)
             pid += 1
-            ops.append(f"pub {c} {topic} q={q} pid={pid if q else 0} r={rng.choice([0, 0, 0, 1])} tag=m{tag}")
+            al = ""
+            if ver[c] == 5 and rng.random() < 0.3:
+                # a v5 publisher may use topic aliases (CONNACK advertises 10): bind, use (zero-length topic), re-bind to another topic
+                a = rng.choice([1, 1, 2, 10])
+                if (c, a) in bound and rng.random() < 0.5:
+                    topic_w = "~"
+                else:
+                    bound[(c, a)] = topic
+                    topic_w = topic
+                al = f" a={a}"
+                ops.append(f"pub {c} {topic_w} q={q} pid={pid if q else 0} r={rng.choice([0, 0, 0, 1])}{al} tag=m{tag}")
+            else:
+                ops.append(f"pub {c} {topic} q={q} pid={pid if q else 0} r={rng.choice([0, 0, 0, 1])} tag=m{tag}")
             if q == 2:
                 ops.append(f"rel {c} {pid}")
         for s in names:
@@ -111,6 +124,7 @@ def predicate(ops, out):
         return "implementation crashed or hung: " + (out[0] if out else "")
     mode = "onlyonce"
     t = Table()
+    aliases = {}         # (connection, alias) -> topic, as the publisher bound it
     for op, line in zip(ops, out):
         f = op.split()
         pre, conns = wire.parse_line(line)
@@ -148,6 +162,12 @@ def predicate(ops, out):
             qos, retain, tag = int(kv.get("q", 0)), int(kv.get("r", 0)), kv.get("tag", "~")
             if f[0] == "pub":
                 src, topic = t.cid[f[1]], f[2]
+                if "a" in kv:
+                    # topic alias (MQTT 5 §3.3.2.3.4): a non-empty topic (re)binds the alias on this connection, an empty one uses it
+                    if topic == "~":
+                        topic = aliases.get((f[1], kv["a"]), "~")
+                    else:
+                        aliases[(f[1], kv["a"])] = topic
                 h = conns.get(f[1], ([], []))[0]
                 pid = kv.get("pid", "0")
                 acks = [x for x in h if x.startswith(("puback(", "pubrec("))]
